@@ -21,6 +21,7 @@
 #if HAVE_CONFIG_H
 #include <config.h> // from autotools
 #endif
+#include <errno.h>
 #include <fcntl.h> //open
 #include <stdio.h>
 #include <stdlib.h>
@@ -160,9 +161,29 @@ static void *asm_mmap_file(char *asm_file, size_t *str_len) {
 
   // NOLINTNEXTLINE
   FAIL_SYS(fstat(fd, &file_stat), "failed to get file stats\n", MAP_FAILED);
-  // map file contents to a string
-  *str_len = file_stat.st_size;
-  void *str = mmap(NULL, *str_len, PROT_READ, MAP_PRIVATE, fd, 0);
+  // the parser reads a NUL-terminated string, which a mapping of the file is
+  // not when its size is a multiple of the page size (and an empty file
+  // cannot be mapped at all): copy the contents into an anonymous mapping
+  // that is one zero byte longer
+  size_t file_len = file_stat.st_size;
+  *str_len = file_len + 1;
+  char *str = mmap(NULL, *str_len, PROT_READ | PROT_WRITE,
+                   MAP_PRIVATE | MAP_ANONYMOUS, -1, 0);
+  if (str != MAP_FAILED) { // NOLINT
+    size_t done = 0;
+    while (done < file_len) {
+      ssize_t n = read(fd, str + done, file_len - done);
+      if (n < 0 && errno == EINTR)
+        continue;
+      if (n <= 0)
+        break;
+      done += n;
+    }
+    if (done < file_len) {
+      munmap(str, *str_len);
+      str = MAP_FAILED;
+    }
+  }
   close(fd);
   return str;
 }
